@@ -12,7 +12,9 @@ def world(rng, v='1.1', two_versions=True, relrich=True):
     """a:1 (en) with extension ax:1, optional a:2 with the same entity ids, expand lexicon e:1 (en) sharing ILIs,
     b:1 (de) requiring e:1 (installed) and zz:0 (missing), unrelated u:1 (ja)"""
     g = docs.Gen(rng, hostile=0.08, rich=0.5)
-    pool = [f'i{k}' for k in range(1, 7)]
+    # ILI ids are plain strings compared for equality: some that differ only in case, or where one is a
+    # LIKE / GLOB pattern of another
+    pool = rng.choice([[f'i{k}' for k in range(1, 7)], ['i1', 'i2', 'i11', 'i_1', 'I2', 'i%'], ['i1', 'i2', 'i3', 'i?', 'i*', 'I3']])
     forms = ['wolf', 'Wolf', 'run', 'runs', 'résumé', 'resume', 'water bottle', 'go']
     a1 = g.lexicon('a', '1', v, n_syn=rng.randint(3, 5), n_ent=rng.randint(2, 4), lang='en', ili_pool=pool, forms_pool=forms)
     ax = g.extension('ax', a1, '1', v, with_forms=False)
